@@ -392,6 +392,19 @@ pub fn run(r: &mut Runner) {
 
     r.probe("epoch-format-float", |c| timestamp_case(c, 1243, 0, TimestampFormat::EpochSeconds));
     r.probe("range-accepts-invalid", |c| range_string_case(c, "bytes=-"));
+    // instants whose local rendering has a four-digit year but whose UTC rendering has not: formatting may refuse, never panic
+    r.probe("regress:utc-year-out-of-range", |c| {
+        for text in ["9999-12-31T23:39:57-08:00", "9999-12-31T23:59:59.999-00:01", "0000-01-01T00:00:00+00:01", "0000-01-01T00:00:00+23:59"] {
+            if let Ok(t) = Timestamp::parse(TimestampFormat::DateTime, text) {
+                for f in [TimestampFormat::DateTime, TimestampFormat::HttpDate, TimestampFormat::EpochSeconds] {
+                    let mut buf = Vec::new();
+                    let _ = t.format(f, &mut buf);
+                }
+            }
+        }
+        c.nontrivial();
+        Ok(())
+    });
     r.search("timestamps", r.scale(150_000, 6_000_000), 48, gen_timestamp);
     r.search("timestamp-noise", r.scale(60_000, 2_000_000), 48, timestamp_noise);
 
